@@ -93,7 +93,7 @@ def run(tier):
         "the first round with unit factors must equal the generic round. The verifier's u^2, u^-2 and the s recurrence are extracted from "
         "verification_scalars (s as a named recurrence) and compared with s[0]=prod u_j^-1, s[i]=s[i-2^lg i]*u_(lg n-1-lg i)^2. "
         "`verify`'s expected point is compared with the reference opening equation.",
-        rule_text="R10.1 round formulas; R10.2 twin rounds; R10.3 verifier scalars and recurrence; R10.4 verify equation; R10.5 halving / shape guards; R10.6 schedule; R10.7 inductive step of the folding theorem on the extracted rounds",
+        rule_text="R10.1 round formulas; R10.2 twin rounds; R10.3 verifier scalars and recurrence; R10.4 verify equation; R10.5 halving / shape guards; R10.6 schedule; R10.7 inductive step of the folding theorem on the extracted rounds; R10.8 the length-1 instance (k = 0): no rounds, (a[0], b[0]), exactly the domain separator absorbed",
         not_decided=["the folding theorem (that these formulas make honest proofs verify and bind)", "degenerate identity cross-terms (rejected by the validating append, see C03)"],
         assumptions=["arkworks msm/inverse implement the algebra", "challenges are non-zero (inverse().unwrap())"],
     )
@@ -108,6 +108,7 @@ CLAIM = {
     "text": "For every length 2^k the code's round is the reference round (a statement about expressions over symbolic half-length h): "
     "cross terms, folds of a, b, G, H with u / u^-1 and the factor vectors, challenge order, the verifier's subset-product recurrence and "
     "the shape guards. The first-round fast path is tied to the generic path by substituting unit factors. The inductive step of the folding theorem "
-    "(<a',G'>+<b',H'>+<a',b'>Q = u^2 L + P + u^-2 R) is checked as a formal-sum identity on the extracted rounds.",
+    "(<a',G'>+<b',H'>+<a',b'>Q = u^2 L + P + u^-2 R) is checked as a formal-sum identity on the extracted rounds. The length-1 argument (k = 0), which the 2h-instance cannot reach, is analysed as its own instance: "
+    "no rounds, result (a[0], b[0]), and the same transcript operations the verifier performs before its zero rounds.",
     "note": "trusted: equivalence of explicit generator folding with the s-vector form; induction over rounds (elementary); arkworks algebra; reference in rules/ipp.py",
 }
